@@ -21,8 +21,11 @@ def var_of(dt):
     return v
 
 
-def row_enc(dt, value):
+def row_enc(dt, value, limits=None):
     v = var_of(dt)
+    if limits is not None:
+        # advisory limits of the dictionary entry: a value outside them is still encoded
+        v.min, v.max = limits
     try:
         out = v.encode_raw(value)
         return {"t": dt, "op": "enc", "v": tv(value), "ok": True, "out": list(bytes(out))}
@@ -99,6 +102,8 @@ def real_values(rng, dt, tier):
 
 
 def build_rows(tier, seed):
+    import logging
+    logging.disable(logging.CRITICAL)
     rng = random.Random(seed * 65537 + 4)
     rows = []
     for dt in sorted(enc.INT):
@@ -129,6 +134,13 @@ def build_rows(tier, seed):
             if n != size:
                 for _ in range(3):
                     rows.append(row_dec(dt, bytes(rng.getrandbits(8) for _ in range(n))))
+                    # a refused decode must leave nothing behind for the next one
+                    b = bytes([1 + k for k in range(size)])
+                    rows.append(row_dec(dt, b))
+                    rows.append(row_reenc(dt, b))
+        lo, hi = enc.int_range(dt)
+        for val in (lo, hi, 0, 5, -5 if lo < 0 else 6):
+            rows.append(row_enc(dt, val, limits=(-1 if lo < 0 else 1, 3)))
     rows = [r for r in rows if r is not None]
     # BOOLEAN
     rows.append({"t": enc.BOOLEAN, "op": "len", "bits": len(var_of(enc.BOOLEAN))})
@@ -145,6 +157,9 @@ def build_rows(tier, seed):
         for f in real_values(rng, dt, tier):
             rows.append(row_enc(dt, f))
             rows.append(row_henc(dt, f))
+        for f in (0.0, 2.5, -7.25, float("inf"), float("-inf"), 1.0):
+            rows.append(row_enc(dt, f, limits=(-1.0, 1.0)))
+            rows.append(row_enc(dt, f, limits=(-1, 1)))
         size = enc.NUM_SIZE[dt]
         for _ in range(300 if tier == "quick" else 3000):
             rows.append(row_dec(dt, rng.getrandbits(8 * size).to_bytes(size, "little")))
